@@ -172,7 +172,7 @@ def judge_user(case, rep, S):
         images = rng.sample(list(M.AA), rng.randint(1, 6))
         ua = {a: rng.choice(images) for a in M.AA}
         kind = rng.choice(["total", "total", "total_with_extras", "bijection", "partial", "replaced_key", "lower_value", "non_aa_value",
-                           "non_dict", "wrong_type_value", "aa_onto_extra_key"])
+                           "non_dict", "wrong_type_value", "aa_onto_extra_key", "two_bad_values", "no_residue_keys", "total_with_word_keys"])
         if kind == "bijection":
             letters = list(M.AA)
             rng.shuffle(letters)
@@ -200,6 +200,14 @@ def judge_user(case, rep, S):
                 if out_fb != want_fb or any(c not in alpha_fb for c in out_fb):
                     rep.viol("user_not_applied", "a dict subclass with __missing__ (stored %r, fallback %r) was accepted on %s but gave %s with alphabet %r; look-ups give %s" % (
                         stored, fallback_letter, seq, out_fb, alpha_fb, want_fb), sig={"step": step, "missing_subclass": True})
+        if kind == "total_with_word_keys":
+            # extra keys that are WORDS over residue letters (three-letter codes, names) - possibly spelled by the sequence - are
+            # extra keys like any other: the reduction goes residue by residue
+            words = ["ALA", "GLY", "LYS", "MET", "SER", "ASP", "ARG", "HIS", seq[:3], seq[1:4], seq[-2:]]
+            for wkey in rng.sample([w_ for w_ in words if len(w_) >= 2], rng.randint(1, 3)):
+                ua[wkey] = rng.choice(list(M.AA))
+            rep.cnt("user_total_with_word_keys")
+            kind = "total"
         if kind == "total_with_extras":
             # entries for keys that are not amino acids (ambiguity codes, lower case) are not part of the alphabet
             for extra in rng.sample(["B", "Z", "X", "U", "a", "k", "*"], rng.randint(1, 3)):
@@ -246,6 +254,14 @@ def judge_user(case, rep, S):
                 bad[extra] = rng.choice([extra, rng.choice(list(M.AA))])
                 bad[rng.choice(list(seq)) if rng.random() < 0.7 else rng.choice(list(M.AA))] = extra
                 rep.cnt("amino_acid_mapped_onto_extra_key")
+            elif kind == "two_bad_values":
+                # two invalid values whose lengths add up to two valid ones
+                k1, k2 = rng.sample(list(M.AA), 2)
+                bad[k1] = ""
+                bad[k2] = rng.choice(list(M.AA)) * 2
+            elif kind == "no_residue_keys":
+                # a non-empty dictionary without a single amino-acid key is not "no user alphabet"
+                bad = rng.choice([{a.lower(): ua[a] for a in M.AA}, {"X": "A"}, {"ALA": "A", "GLY": "G"}, {1: "A"}, {"": ""}])
             elif kind == "wrong_type_value":
                 bad[rng.choice(list(M.AA))] = rng.choice([None, 3, 2.5])
             else:
